@@ -29,7 +29,9 @@ theorem model_agree :
     ∀ r ∈ tables.static,
       nodeTy r.kind (r.args.map some) = r.ty ∧
       nodeIsComplex r.kind (r.args.map (fun t => some t.isComplex)) = r.isComplex := by
-  decide +kernel
+  intro r hr
+  have h := allRows_mem tables modelRow (by decide +kernel) r hr
+  simpa [modelRow] using h
 
 /-! ### Per-node agreement -/
 
@@ -43,7 +45,9 @@ types only): the static type and the observed NumPy dtype do not disagree. -/
 theorem node_agree_partial :
     ∀ r ∈ tables.static, wtRow r.kind r.args = true → cause r.kind r.idx r.args = none →
       tables.status r ≠ .disagree := by
-  decide +kernel
+  intro r hr hwt hc
+  have h := allRows_mem tables tables.partialRow (by decide +kernel) r hr
+  simpa [Tables.partialRow, hwt, hc] using h
 
 /-- **node_agree_exact** (finite whole domain).  The exclusion is exact: among well-typed rows on which the code
 produces a value, the rows that disagree are precisely those with a known cause. -/
@@ -51,7 +55,9 @@ theorem node_agree_exact :
     ∀ r ∈ tables.static, wtRow r.kind r.args = true →
       (tables.status r = .agree ∨ tables.status r = .disagree) →
       (tables.status r = .disagree ↔ (cause r.kind r.idx r.args).isSome = true) := by
-  decide +kernel
+  intro r hr hwt hst
+  have h := allRows_mem tables tables.exactRow (by decide +kernel) r hr
+  rcases hst with hst | hst <;> simpa [Tables.exactRow, hwt, hst] using h
 
 /-- **node_agree_fails** (negation witnesses, one per deviation class; each is replayed on the real code by the
 harness).  E.g. `float64 + complex64` is typed complex64 (Type.max looks only at the complex operand's width) while
@@ -82,9 +88,13 @@ theorem leaves_agree : tables.leavesOK = true := by
 (resp. float64 / complex128, resp. float16) — NO well-typed row has a known deviation (finite whole domain). -/
 theorem uniform_rows_clean :
     ∀ fam ∈ [[Ty.b, Ty.f32, Ty.c64], [Ty.b, Ty.f64, Ty.c128], [Ty.b, Ty.f16]],
-      ∀ r ∈ tables.static, (r.args.all (· ∈ fam)) = true → wtRow r.kind r.args = true →
+      ∀ r ∈ tables.static, (r.args.all (fam.contains ·)) = true → wtRow r.kind r.args = true →
         cause r.kind r.idx r.args = none ∧ tables.status r ≠ .disagree := by
-  decide +kernel
+  intro fam hfam r hr hargs hwt
+  have key : ∀ fam ∈ [[Ty.b, Ty.f32, Ty.c64], [Ty.b, Ty.f64, Ty.c128], [Ty.b, Ty.f16]],
+      tables.allRows (tables.familyRow fam) = true := by decide +kernel
+  have h := allRows_mem tables _ (key fam hfam) r hr
+  simpa [Tables.familyRow, hargs, hwt] using h
 
 /-! ### Lattice -/
 
@@ -157,19 +167,16 @@ theorem graph_agree_fails :
 
 /-! ### is_complex vs get_type (static consistency, reported as a note) -/
 
-/-- rows on which `is_complex` and `get_type` are known to contradict each other -/
-def icExcluded (r : SRow) : Bool :=
-  (([.ceil, .floor, .hypot, .maximum, .minimum, .remainder, .logical_not] : List Kind).contains r.kind && r.args.any Ty.isComplex) ||
-  (r.kind == .conjugate && !r.args.any Ty.isComplex) ||
-  (r.kind == .select && (match r.args with | [_, a, b] => !a.isComplex && b.isComplex | _ => false))
-
 /-- **is_complex_consistent_partial** (finite whole domain).  Wherever both are defined, `is_complex` says "complex" iff
-`get_type` is a complex type — exactly except: real-only functions of complex operands (flagged real, typed complex),
-`conjugate` of a real (flagged complex, typed real), `select` with a real then-branch and a complex else-branch
-(`is_complex` looks at the then-branch only). -/
+`get_type` is a complex type — exactly except (`icExcluded`): real-only functions of complex operands (flagged real,
+typed complex), `conjugate` of a real (flagged complex, typed real), `select` with a real then-branch and a complex
+else-branch (`is_complex` looks at the then-branch only). -/
 theorem is_complex_consistent_partial :
     ∀ r ∈ tables.static, ∀ t c, r.ty = some t → r.isComplex = some c → (icExcluded r = false ↔ c = t.isComplex) := by
-  decide +kernel
+  intro r hr t c ht hc
+  have h := allRows_mem tables icRow (by decide +kernel) r hr
+  simp only [icRow, ht, hc, beq_iff_eq] at h
+  cases hx : icExcluded r <;> simp [hx] at h ⊢ <;> simpa using h
 
 /-! ### Non-vacuity -/
 
